@@ -19,7 +19,7 @@ def plan(prop, tier, seed, t0):
         # seeded random circuits, 1..4 qubits, <= 10 gates, phases k/d with d in 1..=16; circuits with pp / measure_r / measure_d
         dict(name="rand", engine="qasm", args=["--random", 1500 if q else 20000, "--outside", 200 if q else 2500], **T),
         # parse direction: systematic program families (39 register shapes x 3 declaration layouts, 31 unsupported statements x
-        # 4 positions, every phase k/d in 8 spellings, statements beyond the property) and seeded random programs
+        # 4 positions, every phase k/d in 9 spellings, statements beyond the property) and seeded random programs
         dict(name="progs", engine="qasm", args=["--enum-progs", "--progs", 1500 if q else 20000], **T),
     ]
     return run_plan(prop, tier, seed, t0, mcs, traces, "model_checking", COMMON_ASSUME + [
@@ -54,7 +54,7 @@ META = dict(level="model_checking", engine="qasm", design_ref="spec/Qasm.tla hea
                  "gives an error.  The binding to the real code is trace validation: TLC decides RoundTripOK on what to_qasm + from_qasm really "
                  "produced (exhaustively for every phase k/d with d <= 16 on rz and rx, every small circuit, zero-gate circuits; seeded random "
                  "circuits up to 4 qubits x 10 gates) and compares from_qasm on harness-rendered texts of generated programs (several registers, "
-                 "three declaration layouts, eight spellings of every phase incl. un-normalised values, 31 unsupported statements at every "
+                 "three declaration layouts, nine spellings of every phase (six exact, three with a decimal part) incl. un-normalised values, 31 unsupported statements at every "
                  "position) with QParse of the specification.  The claim is model checking of the transcribed machine plus per-execution "
                  "validation of the code against it; what TLA+ cannot express (the text level: lexer, float approximation) is covered by the "
                  "recorded executions only.",
